@@ -31,6 +31,8 @@ impl BoundedClock {
     /// returns the previous high-water mark + 1ns instead.
     pub fn now_nanos(&self) -> i64 {
         let wall = Utc::now().timestamp_nanos_opt().unwrap_or(0);
+        #[cfg(feature = "verif_hooks")]
+        let wall = wall + crate::verif_hooks::clock_offset_nanos();
         loop {
             let prev = self.high_water_ns.load(Ordering::Acquire);
             let ts = wall.max(prev + 1);
